@@ -50,6 +50,27 @@ UN_OPS = ['neg', 'reverse', 'involute', 'conjugate', 'hodge', 'unhodge', 'normsq
 ROUTES = ['plain', 'wrapper', 'register', 'register-sym']
 
 
+OBJ_PRE = ['call', 'call-other-values', 'partial-call', 'operand', 'inspect', 'derive-first', 'str']
+OBJ_POST = ['call', 'call-positional', 'operand-then-call', 'call-twice', 'call-no-symbols']
+OBJ_DERIVE = {
+    'map2': lambda x: x.map(lambda v: 2 * v),
+    'map-plus': lambda x: x.map(lambda v: v + 1),
+    'map-kv': lambda x: x.map(lambda k, v: (k + 2) * v),
+    'filter-all': lambda x: x.filter(lambda v: True),
+    'filter-kv': lambda x: x.filter(lambda k, v: k != x.keys()[0]),
+    'neg': lambda x: -x,
+    'reverse': lambda x: ~x,
+    'top-grade': lambda x: x.grade(x.grades[-1]),
+    'all-grades': lambda x: x.grade(*x.grades),
+    'full': lambda x: x.asfullmv(),
+    'full-binary': lambda x: x.asfullmv(canonical=False),
+    'times2': lambda x: x * 2,
+    'plus-self': lambda x: x + x,
+    'square': lambda x: x * x,
+    'self': lambda x: x,
+}
+
+
 def cases(tier, seed):
     rng = random.Random(seed * 7919 + 9)
     out = []
@@ -159,6 +180,15 @@ def cases(tier, seed):
     for i in range(n):
         out.append(dict(kind='mixed-history', cfg=rng.choice(cfgs2 + [dict(p=3), dict(p=2, r=1)]), hseed=rng.randrange(10 ** 9),
                         length=rng.randint(2, L), wrapper=bool(rng.random() < 0.5)))
+    # --- histories on a multivector OBJECT: earlier calls / uses / inspections of x must not leak into
+    #     multivectors derived from x (map, filter, grade, asfullmv, negation ...) nor into later calls of x
+    for i in range(90 if tier == 'quick' else 1200):
+        cfg = rng.choice(cfgs2 + [dict(p=3), dict(p=2, r=1)])
+        d = sum(cfg.values())
+        out.append(dict(kind='object-history', cfg=dict(cfg, wrapper='identity') if rng.random() < 0.25 else cfg,
+                        ka=rng.sample(range(2 ** d), rng.choice((1, 2, 2, 3))),
+                        pre=[rng.choice(OBJ_PRE) for _ in range(rng.randint(1, 3))], derive=rng.choice(sorted(OBJ_DERIVE)),
+                        post=[rng.choice(OBJ_POST) for _ in range(rng.randint(1, 2))], numeric=bool(rng.random() < 0.3)))
     return out
 
 
@@ -223,6 +253,8 @@ def run_case(desc, V):
         return _run_derived(desc, V)
     if desc['kind'] == 'flaky-wrapper':
         return _run_flaky(desc, V)
+    if desc['kind'] == 'object-history':
+        return _run_object(desc, V)
     return _run_mixed(desc, V)
 
 
@@ -520,4 +552,95 @@ def _run_mixed(desc, V):
                 claims += mv_eq_claims(tag, r, coeffs(sv * sv), fkey=fkey)
     claims += _unchanged_claims('mixed', snaps)
     claims.append(Eq('history-completed', 1, 1))
+    return claims
+
+
+# --------------------------------------------------------------------------- histories on one multivector object
+
+def _run_object(desc, V):
+    """
+    x is a multivector with named (sympy) coefficients.  After a pre-history on the OBJECT x (calls with other
+    values, use as operand, inspection of its cached properties, an earlier derivation), y = derive(x) is used
+    (called with solver-term values, used as operand) and compared with the same derivation applied to a
+    multivector that carries those solver terms directly on a fresh algebra.
+    """
+    from kingdon.multivector import MultiVector
+    alg = make_alg(desc['cfg'])
+    fresh = make_alg({k: v for k, v in desc['cfg'].items() if k != 'wrapper'})
+    keys = tuple(desc['ka'])
+    derive = OBJ_DERIVE[desc['derive']]
+    fkey = f'object-history|{desc["derive"]}'
+    claims = [Note('nontrivial', '')]
+    if desc.get('numeric'):
+        # numeric x (solver terms) with a pre-history; the derived multivector is then used as operand
+        x = mv(alg, V, 'x', keys)
+        snaps = _snapshot([x])
+        for letter in desc['pre']:
+            if letter == 'operand':
+                x * x; x + 1; ~x
+            elif letter == 'inspect':
+                x.issymbolic, x.free_symbols, x.grades, x.type_number, x.shape
+            elif letter == 'derive-first':
+                derive(x)
+            elif letter == 'str':
+                str(x.keys())
+            else:
+                x()
+        y = derive(x)
+        want = derive(MultiVector.fromkeysvalues(fresh, keys, list(x.values())))
+        claims += mv_eq_claims('derived', y, coeffs(want), fkey=fkey)
+        claims += mv_eq_claims('derived*x', y * x, coeffs(want * MultiVector.fromkeysvalues(fresh, keys, list(x.values()))), fkey=fkey)
+        claims += _unchanged_claims('object', snaps)
+        return claims
+    x = alg.multivector(keys=keys, name='u')
+    names = [str(v) for v in x.values()]
+    vals = {n: V.var(f'c_{n}') for n in names}
+    other = {n: V.var(f'o_{n}') for n in names}
+    num = MultiVector.fromkeysvalues(fresh, keys, [vals[n] for n in names])
+    for letter in desc['pre']:
+        if letter == 'call':
+            x(**vals)
+        elif letter == 'call-other-values':
+            x(**other)
+        elif letter == 'partial-call':
+            x(*[other[n] for n in sorted(names)])
+            try:
+                x()            # too few values: a raising call is part of the history
+            except Exception:
+                pass
+        elif letter == 'operand':
+            x * x; x + 1; ~x
+        elif letter == 'inspect':
+            x.issymbolic, x.free_symbols, x.grades, x.type_number, x.shape
+        elif letter == 'derive-first':
+            y1 = derive(x)
+            y1(**{str(v): other[str(v)] for v in y1.free_symbols})
+        elif letter == 'str':
+            str(x)
+    y = derive(x)
+    want = derive(num)
+    for j, letter in enumerate(desc['post']):
+        tag = f'post{j}:{letter}'
+        if not y.free_symbols:
+            claims.append(Eq(tag + ':no-symbols', 1, 1))
+            continue
+        ynames = sorted(str(v) for v in y.free_symbols)
+        if letter == 'call':
+            claims += mv_eq_claims(tag, y(**{n: vals[n] for n in ynames}), coeffs(want), fkey=fkey)
+        elif letter == 'call-positional':
+            claims += mv_eq_claims(tag, y(*[vals[n] for n in ynames]), coeffs(want), fkey=fkey)
+        elif letter == 'call-twice':
+            y(**{n: other[n] for n in ynames})
+            claims += mv_eq_claims(tag, y(**{n: vals[n] for n in ynames}), coeffs(want), fkey=fkey)
+        elif letter == 'operand-then-call':
+            z = y * x
+            znames = sorted(str(v) for v in z.free_symbols)
+            if znames:
+                claims += mv_eq_claims(tag, z(**{n: vals[n] for n in znames}), coeffs(want * num), fkey=fkey)
+        elif letter == 'call-no-symbols':
+            r = y(**{n: vals[n] for n in ynames})
+            r2 = r()
+            claims += mv_eq_claims(tag, r2, coeffs(want), fkey=fkey)
+    # x itself still evaluates to its own coefficients
+    claims += mv_eq_claims('x-after', x(**vals), coeffs(num), fkey='object-history|source-changed')
     return claims
